@@ -1,8 +1,20 @@
 import XModel.RefsLift
 /-!
 # C04 — deferred expressions evaluate to what Python computes on the operand values
-Tie A: the tables are regenerated from the working tree on every run; the per-run obligation is
-`Generated.tbl.ValidOps = true` (`decide`).  The lift below is proved once, for every table.
+Tie A: the tables are regenerated from the working tree on every run; the per-run obligations are
+`Generated.tbl.ValidOps = true` and `Generated.tbl.Coherent = true` (both `decide`; `Coherent` is not
+implied by `ValidOps` and the full lift needs it).  The lifts below are proved once, for every table.
+
+`ValidOps = ValidOpRows && ValidPropagate`.  `ValidOpRows` is driven by the four specification lists
+(`pySpecFull`, `unarySpec`, `builtinSpec`, `inplaceSpec`).  `ValidPropagate` is closed over the class
+universe: every class of `RefsTable.propClasses` (the 19 `BinOpExpr` and 3 `UnaryOpExpr` subclasses) must
+have a propagating row for every exception of `RefsTable.probedExcs`, and every class of the table's
+operator rows must be in the universe (`C04_propagate_covers_universe`).
+
+NOT COVERED by any theorem of this file (no rows in the table describe how they are built or
+evaluated): general calls / keyword arguments (`CallRef`), subscripts with literal or computed keys
+(`ItemRef`), attribute access (`AttrRef`), `EqExpr` / `NeExpr` (`_eq` / `_neq`), keyword parameters of
+the builtins.  See the header of `XModel/RefsLift.lean`.
 -/
 namespace Properties.C04
 open Tables RefsTable RefsLift
@@ -23,9 +35,7 @@ theorem C04_eval_homomorphism {V : Type} (f : Full) (hv : f.ValidOps = true) (op
     rows mean for evaluation is `C04_eval_homomorphism_full` (constructors `iopVal` / `iopExpr`). -/
 theorem C04_inplace_complete (f : Full) (hv : f.ValidOps = true) (d : String) (p : Prim)
     (h : (d, p) ∈ inplaceSpec) : inplaceOk f d p = true := by
-  unfold Full.ValidOps at hv
-  simp only [Bool.and_eq_true] at hv
-  exact List.all_eq_true.mp hv.1.1.2 (d, p) h
+  exact (validOps_parts f hv).2.2.2.1 (d, p) h
 
 /-- PROJECTION of the validity obligation (no lift): this restates three instances of the builtin
     conjunct of `Full.ValidOps` (`round(x)` passes no `ndigits`, `round(x, n)` / `divmod(x, y)` keep the
@@ -34,38 +44,78 @@ theorem C04_inplace_complete (f : Full) (hv : f.ValidOps = true) (d : String) (p
 theorem C04_builtins (f : Full) (hv : f.ValidOps = true) :
     builtinOk f "__round__" "round" 0 true = true ∧ builtinOk f "__abs__" "abs" 0 false = true ∧
     builtinOk f "__divmod__" "divmod" 0 true = true := by
-  unfold Full.ValidOps at hv
-  simp only [Bool.and_eq_true] at hv
-  have h := List.all_eq_true.mp hv.1.1.1.2
+  have h := (validOps_parts f hv).2.2.1
   exact ⟨h ("__round__", "round", 0, true) (by simp [builtinSpec]),
          h ("__abs__", "abs", 0, false) (by simp [builtinSpec]),
          h ("__divmod__", "divmod", 0, true) (by simp [builtinSpec])⟩
 
-/-- PROJECTION of the validity obligation (no lift): this restates the `propagate` conjunct of
-    `Full.ValidOps`: every probed (class, exception) row of a valid table has `propagates = true`.  It says
-    nothing beyond the rows the extractor probed (OverflowError, FloatingPointError, ArithmeticError,
-    ValueError, TypeError on each class).  In `C04_eval_homomorphism_full` the node semantics `evalNode2`
-    returns NaN for a recorded swallowed exception, and this conjunct is what excludes it. -/
+/-- PROJECTION of the validity obligation (no lift): this restates the first conjunct of
+    `Full.ValidPropagate`: every LISTED (class, exception) row of a valid table has `propagates = true`.
+    That the rows are there for every class is `C04_propagate_covers_universe`.  In
+    `C04_eval_homomorphism_full` the node semantics `evalNode2` returns NaN for a recorded swallowed
+    exception, and this conjunct is what excludes it. -/
 theorem C04_other_exceptions_propagate (f : Full) (hv : f.ValidOps = true) (r : PropagateRow) (hr : r ∈ f.propagate) :
-    r.propagates = true := by
-  unfold Full.ValidOps at hv
-  simp only [Bool.and_eq_true] at hv
-  exact List.all_eq_true.mp hv.1.2 r hr
+    r.propagates = true := (validOps_parts f hv).2.2.2.2.1 r hr
 
-/-- THE FULL LIFT.  For every table that passes `ValidOps` and `Coherent` (both decidable, both checked
-    on the regenerated table), and every well-formed term over ALL operators `ValidOps` talks about —
+/-- `propagate` CLOSED OVER THE UNIVERSE.  For a valid table: (1) every class of `propClasses` — every
+    subclass of `BinOpExpr` and of `UnaryOpExpr`, the classes whose `_get_value` applies one operator with
+    or without the ZeroDivision guard — has, for every exception of `probedExcs` (OverflowError,
+    FloatingPointError, ArithmeticError, ValueError, TypeError), the row saying that the exception reached
+    the caller; (2) for such a class no exception at all is recorded as swallowed; (3) every class of the
+    table's binary / unary operator rows is a class of the universe; hence (4) for a class of the
+    universe the node does with the result of its primitive exactly what the documented guard does.
+    A table with one arbitrary propagate row is NOT valid (`RefsLift.unprobedTable`), and the node
+    semantics is fail-closed: for an unprobed class the lift's conclusion fails (examples below).
+    What is NOT probed: exception classes other than the five (nothing is listed, `swallows` is false:
+    an extrapolation); `BuiltinRef` (`Node2.call`) and the value case of in-place operators (`Node2.imm`)
+    do not go through `classRes` — their sources have no `except` clause — and are hard-wired. -/
+theorem C04_propagate_covers_universe {V : Type} (f : Full) (hv : f.ValidOps = true) :
+    (∀ c ∈ propClasses, ∀ e ∈ probedExcs, (⟨c, e, true⟩ : PropagateRow) ∈ f.propagate) ∧
+    (∀ c exc, swallows f c exc = false) ∧
+    ((∀ c ∈ f.bin.classes, c.cls ∈ binClasses) ∧ (∀ r ∈ f.unary, r.cls ∈ unaryClasses)) ∧
+    (∀ (ops : PyOps2 V) (cls : String), cls ∈ propClasses → ∀ (g : Bool) (res : Except String V),
+        classRes f ops cls g res = guardNaN ops.toPyOps g res) :=
+  ⟨fun c hc e he => probedClass_mem f.propagate c e ((validPropagate_parts f hv).1 c hc) he,
+   no_swallow f hv,
+   (validPropagate_parts f hv).2,
+   fun ops cls hc g res => classRes_eq_universe f hv ops cls hc g res⟩
+
+/-- THE LIFT OVER ALL OPERATORS ("full" = all operator dunders of the four specification lists, as
+    opposed to the 18-dunder fragment above; NOT all node kinds of the library).
+    OUTSIDE this theorem — `Term2` has no constructor for them, because the extracted table has no rows
+    describing how they are built and in which order their operands are evaluated:
+    general calls `f(a, b, k=c)` and keyword arguments (`CallRef`), subscripts `r[k]` with a literal or
+    a computed key (`ItemRef`), attribute access `r.name` (`AttrRef`), the `_eq` / `_neq` nodes (`EqExpr`,
+    `NeExpr`), keyword parameters of the builtins (`round(x, ndigits=2)`), and `LiteralExpr` / container
+    refs other than as leaves (`Term2.val`).  `Term2.call` is ONLY the six builtin dunders of
+    `builtinSpec` with positional parameters.
+    For every table that passes `ValidOps` and `Coherent` (both decidable, both per-run obligations of
+    the generated file), and every well-formed term over the operators `ValidOps` talks about —
     the 30 binary / reflected dunders of `pySpecFull` (bitwise, shifts, matmul included), the unary
     operators, the builtin calls with their parameter lists, the in-place operators in the value case and
     in the expression case — the library's construction succeeds and the node evaluates to what Python
     computes directly, with NaN exactly at a ZeroDivisionError of the three guarded primitives inside a
-    node (the value case of an in-place operator is plain Python and raises).  Each constructor uses the
-    conjunct of `ValidOps` that talks about it, the `propagate` conjunct included.
+    node (the value case of an in-place operator is plain Python and raises).  The constructors `op`,
+    `un`, `iopExpr` use the row conjunct that talks about them AND the `propagate` conjunct (their
+    classes pass through `classRes`, which is fail-closed for unprobed classes); `call` and `iopVal` use
+    their row conjunct only: the two sides then differ only in where the function name / parameter
+    count / primitive come from (table vs specification), the shape of `BuiltinRef._get_value` is
+    hard-wired in `evalNode2`.
     `Coherent` (one class = one behaviour) is not implied by `ValidOps`; `RefsLift.incoherentUnary` and
     `RefsLift.incoherentInplace` are `ValidOps`-valid tables for which the conclusion fails. -/
 theorem C04_eval_homomorphism_full {V : Type} (f : Full) (hv : f.ValidOps = true) (hc : f.Coherent = true)
     (ops : PyOps2 V) (term : Term2 V) (hw : WF2 term) :
     ∃ node, build2 f term = some node ∧ evalNode2 f ops node = evalDirect2 ops term :=
   build_eval2 f hv hc ops term hw
+
+/-- the same with the class universe made explicit: every node that the library's construction yields
+    is made of classes of the universe (`nodeInUniverse`, a property of the node alone), i.e. of classes
+    that a valid table has probed for `propagate` -/
+theorem C04_eval_homomorphism_universe {V : Type} (f : Full) (hv : f.ValidOps = true) (hc : f.Coherent = true)
+    (ops : PyOps2 V) (term : Term2 V) (hw : WF2 term) :
+    ∃ node, build2 f term = some node ∧ evalNode2 f ops node = evalDirect2 ops term ∧
+      nodeInUniverse node = true :=
+  build_eval2_universe f hv hc ops term hw
 
 /-- on the binary fragment the full lift talks about the same "direct" value as `C04_eval_homomorphism` -/
 theorem C04_full_extends_fragment {V : Type} (ops : PyOps2 V) (t : Term V) (hw : WFTerm t) :
@@ -96,6 +146,15 @@ example : ∃ node, build2 RefsLift.sample sampleTerm = some node ∧
     evalNode2 RefsLift.sample intOps node = evalDirect2 intOps sampleTerm :=
   C04_eval_homomorphism_full RefsLift.sample sample_valid sample_coherent intOps sampleTerm sampleTerm_wf
 example : (build2 RefsLift.sample sampleTerm).map (evalNode2 RefsLift.sample intOps) = some (.ok 54) := rfl
+/-- the universe conjunct instantiated on the hand-written table, and the reviewer's degenerate table:
+    one arbitrary propagate row is rejected, although all operator rows are valid and coherent; for it
+    the conclusion of the lift fails (`1 @ 2` raises TypeError in Python, the fail-closed node gives NaN) -/
+example : (⟨"MatmulExpr", "TypeError", true⟩ : PropagateRow) ∈ RefsLift.sample.propagate :=
+  (C04_propagate_covers_universe (V := Int) RefsLift.sample sample_valid).1 "MatmulExpr" (by decide) "TypeError" (by decide)
+example : unprobedTable.ValidOps = false ∧ unprobedTable.ValidOpRows = true ∧ unprobedTable.Coherent = true := by decide
+example : (build2 unprobedTable (Term2.op "__matmul__" ⟨.matmul, true⟩ (.val (1 : Int)) (.val 2))).map
+    (evalNode2 unprobedTable intOps) = some (.ok (-999)) := rfl
+example : evalDirect2 intOps (Term2.op "__matmul__" ⟨.matmul, true⟩ (.val 1) (.val 2)) = .error "TypeError" := rfl
 /-- completeness instantiated, and its contrapositive on a table that lost the `__invert__` row -/
 example : ∃ r, r ∈ RefsLift.sample.unary ∧ r.dunder = "__invert__" ∧
     RefsLift.sample.unary.find? (·.dunder = "__invert__") = some r ∧ r.prim = .invert :=
